@@ -8,7 +8,7 @@ Tie: harness/c07.c feeds server streams produced by the independent reference en
 (Driver/C07.lean) runs the client model AND the specification decoders on the same bytes; exact
 comparison of every observation line; direct oracle: framebuffer == what the generator encoded.
 """
-import json, os, struct, zlib, subprocess, select
+import json, os, struct, zlib, subprocess, select, re
 from .. import common, build
 from . import c07_enc as E
 
@@ -17,6 +17,22 @@ EXTRA_TARGETS = ["drv_c07"]
 # -ftrivial-auto-var-init=pattern: a local variable the library reads before writing it holds 0xFE.. bytes
 # (a hostile value), not whatever the previous call left on the stack: such reads become deterministic
 HARNESS_EXTRA = ("-fno-sanitize=alignment", "-ftrivial-auto-var-init=pattern")
+
+
+def play_variant(script):
+    """the same session through the library's play-file transport (vncrec log): -> script or None"""
+    ls = script.splitlines()
+    inits = [l for l in ls if l.startswith("init ")]
+    msgs = [l.split()[1] for l in ls if l.startswith("msg ")]
+    if len(inits) != 1 or len(msgs) > 28 or any(l.split()[0] in ("feed", "feedrep", "drain", "fbdump", "fill", "copy", "bitmap", "req", "setformat", "wait", "eos") for l in ls) \
+            or "-" in msgs:
+        return None
+    hd = [l for l in ls if l.split()[0] in ("client", "adopt")]
+    return "\n".join(hd + ["play %s %s" % (inits[0].split()[1], " ".join(msgs)), "init -"] + ["msg -"] * len(msgs) + ["end"]) + "\n"
+
+
+def strip_out(line):
+    return " ".join(t for t in line.split() if not t.startswith("out="))
 
 
 def realtime_hang(impl):
@@ -204,6 +220,14 @@ def gen_session(rng, lzo, force=None):
              "seg " + ",".join(str(s) for s in segsizes),
              "init " + hexs(E.handshake(sfmt, W, H, name, version))]
     expect = [None, None, ("init", W, H, name)]
+    if force.get("adopt") or rng.random() < 0.08:
+        # the application creates the client with some format and adopts the session's format in its first
+        # MallocFrameBuffer callback: the library must REQUEST and DECODE the adopted format
+        fmt0 = force.get("adopt") or rng.choice(E.FORMATS)
+        lines[0] = lines[0].replace(" ".join(str(v) for v in fmt.tuple()), " ".join(str(v) for v in fmt0.tuple()), 1)
+        lines.insert(1, "adopt " + " ".join(str(v) for v in fmt.tuple()))
+        expect.insert(1, None)
+        sess.tag("adopt-format")
     nmsg = force.get("nmsg") or rng.randint(1, 6)
     pix_encs = [e for e in encs if e != "copyrect"] or ["raw"]
     for _ in range(nmsg):
@@ -385,6 +409,10 @@ def oracle(sessn, impl):
             if ob != "ok":
                 return "op %d %r answered %r" % (i, op[:40], ob)
             continue
+        if ex[0] == "re":
+            if not re.match(ex[1], ob):
+                return "op %d %r: observed %r, expected /%s/" % (i, op[:40], ob[:200], ex[1])
+            continue
         if ex[0] == "jpegdump":
             e = check_jpeg(ob, *ex[1:])
             if e:
@@ -400,6 +428,9 @@ def oracle(sessn, impl):
             d = parse_obs(ob)
             if d.get("left") != "0":
                 return "handshake: %s bytes left unread" % d.get("left")
+            f = E.FMT_BY_NAME.get(sessn.get("fmt") or "")
+            if f is not None and d.get("out", "-") != "-" and ("00000000" + f.wire().hex()) not in d["out"]:
+                return "SetPixelFormat does not announce the format the client decodes in (%s): out=%s" % (f.name, d["out"])
             continue
         _, crc, W, H, cbs = ex
         d = parse_obs(ob)
@@ -585,6 +616,84 @@ def gen_deterministic(rng, lzo, jpeg, jpegrgb):
         ex = [None, None, ("init", W, H, b"det"), ("msg", crc_fb(sess), W, H, ["upd:0:0:%d:%d" % (W, H), "fin"]), None]
         out.append({"script": "\n".join(lines) + "\n", "expect": ex, "tags": ["det:vncauth", "raw", "vncauth"], "fmt": fmt.name,
                     "sfmt": sf.name, "encs": ["raw"], "size": (W, H), "seg": [0], "nomodel": True})
+    # ---- colour-mapped client (trueColour 0, 8 bpp): a conforming server sends SetColourMapEntries; the library keeps
+    # no colour map, but the messages that follow must still be found (pixels are opaque 8-bit values)
+    cm = E.Fmt(8, 8, 0, 0, 7, 7, 3, 0, 3, 6, "cmap8")
+    for ncol in (0, 1, 3, 256):
+        W, H = 12, 7
+        sess = E.Session(rng, cm, W, H, lzo=lzo)
+        msgs = []
+        for k, enc in enumerate(("raw", "hextile", "rre")):
+            sess.z = []
+            r = sess.enc_rect(enc, 0, 0, W, H)
+            msgs.append(([], E.fbu([r]), ("msg", crc_fb(sess), W, H, ["upd:0:0:%d:%d" % (W, H), "fin"])))
+            scme = struct.pack(">BxHH", 1, k * 5, ncol) + bytes((i * 29 + k) & 0xFF for i in range(ncol * 6))
+            msgs.append(([], scme, ("msg", crc_fb(sess), W, H, [])))
+        sc, ex = _assemble(cm, sf, W, H, ["raw", "hextile", "rre"], [0], 1, msgs)
+        out.append({"script": sc, "expect": ex, "tags": ["det:colourmap", "raw", "hextile", "rre"], "fmt": None, "sfmt": sf.name,
+                    "encs": ["raw", "hextile", "rre"], "size": (W, H), "seg": [0]})
+    # ---- WaitForMessage: a message that was read ahead together with its predecessor is waiting in the library's
+    # buffer, not in the socket: WaitForMessage must report it
+    for name in ("rgb888le",):
+        fmt = E.FMT_BY_NAME[name]
+        W, H = 5, 4
+        z0 = zlib.crc32(fmt.mask_bytes(bytes(W * H * fmt.bytespp))) & 0xFFFFFFFF
+        t = b"hello"
+        two = b"\x02" + struct.pack(">BxxxI", 3, len(t)) + t
+        lines = ["client %s enc=raw cursor=1 fbmode=1" % " ".join(str(v) for v in fmt.tuple()), "seg 0", "eos eagain",
+                 "init " + hexs(E.handshake(sf, W, H, b"det")), "wait", "msg " + hexs(two), "wait", "msg -", "wait", "end"]
+        ex = [None, None, None, ("init", W, H, b"det"), ("re", r"^wait 0$"),
+              ("re", r"^msg T fb=%d:%d:%08x cb=bell out=- left=%d$" % (W, H, z0, len(two) - 1)), ("re", r"^wait 1$"),
+              ("msg", z0, W, H, ["cut:5:%08x" % (zlib.crc32(t) & 0xFFFFFFFF)]), ("re", r"^wait 0$"), None]
+        out.append({"script": "\n".join(lines) + "\n", "expect": ex, "tags": ["det:wait-buffered", "bell", "cuttext"], "fmt": fmt.name,
+                    "sfmt": sf.name, "encs": ["raw"], "size": (W, H), "seg": [0]})
+    # ---- pixel format changed in mid-session (32 bpp -> 16 bpp) between two Tight gradient rectangles, the first one wider
+    for (n0, n1) in (("rgb888le", "rgb565le"), ("rgb888le", "rgb555be"), ("rgb565le", "rgb888le")):
+        f0, f1 = E.FMT_BY_NAME[n0], E.FMT_BY_NAME[n1]
+        W, H = 40, 3
+        sess = E.Session(rng, f0, W, H, lzo=lzo)
+        sess.force_sid, sess.force_resets, sess.force_content = 0, 0, "noisefast"
+        sess.z = []
+        r1 = sess.enc_rect("tight", 0, 0, W, H, force="grad")
+        z1, c1 = list(sess.z), crc_fb(sess)
+        sess.fmt = f1
+        sess.resize(W, H)
+        sess.z = []
+        r2 = sess.enc_rect("tight", 0, 0, 20, H, force="grad")
+        z2, c2 = list(sess.z), crc_fb(sess)
+        lines = ["client %s enc=tight cursor=1 fbmode=1" % " ".join(str(v) for v in f0.tuple()), "seg 0",
+                 "init " + hexs(E.handshake(sf, W, H, b"det"))]
+        lines += ["z %d %s %s" % (sid, hexs(z), hexs(pl)) for (sid, z, pl) in z1] + ["msg " + hexs(E.fbu([r1]))]
+        lines += ["setformat " + " ".join(str(v) for v in f1.tuple())]
+        lines += ["z %d %s %s" % (sid, hexs(z), hexs(pl)) for (sid, z, pl) in z2] + ["msg " + hexs(E.fbu([r2])), "end"]
+        zf = zlib.crc32(f1.mask_bytes(bytes(W * H * f1.bytespp))) & 0xFFFFFFFF
+        ex = [None, None, ("init", W, H, b"det")] + [None] * len(z1) + [("msg", c1, W, H, ["upd:0:0:%d:%d" % (W, H), "fin"])]
+        ex += [("re", r"^setformat T fb=%d:%d:%08x cb=malloc:%d:%d out=00000000%s02\w+ left=0$" % (W, H, zf, W, H, f1.wire().hex()))]
+        ex += [None] * len(z2) + [("msg", c2, W, H, ["upd:0:0:20:%d" % H, "fin"]), None]
+        out.append({"script": "\n".join(lines) + "\n", "expect": ex, "tags": ["det:setformat-midsession", "tight:grad", "tight"], "fmt": f0.name,
+                    "sfmt": sf.name, "encs": ["tight"], "size": (W, H), "seg": [0]})
+    # ---- format adopted in the MallocFrameBuffer callback (32 -> 16 bpp, 8 -> the server's 32 bpp, 16 -> 32 bpp big-endian, ...)
+    for (n0, n1) in (("rgb888le", "rgb565le"), ("bgr233", "rgb888le"), ("rgb565le", "rgb888be"), ("rgb888le", "bgr233"), ("rgb555be", "bgr888le")):
+        for encs in (["raw", "hextile"], ["zrle", "tight"]):
+            out.append(gen_session(rng, lzo, {"fmt": E.FMT_BY_NAME[n1], "adopt": E.FMT_BY_NAME[n0], "encs": encs, "size": (23, 11), "nmsg": 2,
+                                             "sfmt": sf, "version": b"RFB 003.008\n"}))
+            out[-1]["tags"] = list(out[-1]["tags"]) + ["det:adopt-format"]
+    # ---- zero-length reads (a transport must treat "read 0 bytes" as success): empty desktop name, empty cut text,
+    # RRE / CoRRE without sub-rectangles, Hextile tiles without sub-rectangles (flat content)
+    for name in ("bgr233", "rgb565le", "rgb888le"):
+        fmt = E.FMT_BY_NAME[name]
+        W, H = 21, 18
+        sess = E.Session(rng, fmt, W, H, lzo=lzo)
+        sess.z = []
+        sess.force_content = "flat"
+        rects = [sess.enc_rect(e, 0, 0, W, H) for e in ("rre", "corre", "hextile")]
+        lines = ["client %s enc=rre+corre+hextile cursor=1 fbmode=1" % " ".join(str(v) for v in fmt.tuple()), "seg 0",
+                 "init " + hexs(E.handshake(sf, W, H, b"")), "msg " + hexs(struct.pack(">BxxxI", 3, 0)), "msg " + hexs(E.fbu(rects)), "end"]
+        ex = [None, None, ("init", W, H, b""), ("msg", 0, W, H, ["cut:0:00000000"]),
+              ("msg", crc_fb(sess), W, H, ["upd:0:0:%d:%d" % (W, H)] * 3 + ["fin"]), None]
+        ex[3] = ("msg", zlib.crc32(fmt.mask_bytes(bytes(W * H * fmt.bytespp))) & 0xFFFFFFFF, W, H, ["cut:0:00000000"])
+        out.append({"script": "\n".join(lines) + "\n", "expect": ex, "tags": ["det:zero-length-reads", "rre", "corre", "hextile"], "fmt": fmt.name,
+                    "sfmt": sf.name, "encs": ["rre", "corre", "hextile"], "size": (W, H), "seg": [0]})
     # ---- ExtendedDesktopSize: every screen count 1..4, new size and unchanged size, followed by pixels
     for name in ("bgr233", "rgb565le", "rgb888le"):
         fmt = E.FMT_BY_NAME[name]
@@ -657,6 +766,13 @@ def run(ctx):
         return {"evaluations": 1, "distinct_nontrivial": 1, "rule": "replay of a round-trip script", "samples": [], "distribution": {},
                 "failures": [{"kind": "oracle", "what": "C07 round trip", "detail": str(outl[-3:]) + err[-500:], "script": rec["script"],
                               "roundtrip": True}] if bad else [], "partial": [], "assumptions": []}
+    if ctx.replay and json.load(open(ctx.replay)).get("play"):
+        rec = json.load(open(ctx.replay))
+        rc, pl, err = ctx.run_lines(h, "\n".join(rec["script"]) + "\n", timeout=120)
+        bad = rc != 0 or any(l.split()[1] != "T" for l in pl if l.startswith(("init ", "msg ")))
+        return {"evaluations": 1, "distinct_nontrivial": 1, "rule": "replay of a play-file session", "samples": [], "distribution": {},
+                "failures": [{"kind": "oracle", "what": "C07: play-file transport rejects a stream that decodes over the socket",
+                              "detail": str(pl[-3:]) + err[-300:], "script": rec["script"], "play": True}] if bad else [], "partial": [], "assumptions": []}
     if ctx.replay:
         rec = json.load(open(ctx.replay))
         sessions = [{"script": "\n".join((rec.get("script") or (rec.get("first_disagreement") or {}).get("script") or [])) + "\n", "expect": None, "tags": []}]
@@ -696,7 +812,32 @@ def run(ctx):
             return impl, [], f
         return common.compare_streams(ctx, s["script"], h, d, "client.session", timeout=limit, env=env)
 
+    def play_check(s, impl):
+        """transport independence: what decodes over the socket decodes identically from a play file"""
+        ps = play_variant(s["script"])
+        if ps is None or not impl:
+            return None
+        sock = [strip_out(l) for l in impl if l.startswith(("init ", "msg "))]
+        if not sock or not all(l.split()[1] == "T" for l in sock):
+            return None
+        rc, pl, err = ctx.run_lines(h, ps, timeout=120)
+        got = [strip_out(l) for l in pl if l.startswith(("init ", "msg "))]
+        if rc != 0 or got != sock:
+            d = next((i for i, (a, b) in enumerate(zip(got, sock)) if a != b), min(len(got), len(sock)))
+            return {"kind": "oracle" if rc in (0, 1, 23) else "crash", "what": "C07: the stream decodes over the socket but not identically from a play file (vncrec transport)",
+                    "detail": "harness exit %d; message %d: play %r, socket %r; %s" % (rc, d, got[d:d + 1], sock[d:d + 1], err[-300:]),
+                    "script": ps.splitlines()[:40], "impl": pl[-6:], "play": True}
+        return None
+
     def one(s):
+        r = one0(s)
+        if r[2] is None and not ctx.replay:
+            f = play_check(s, r[0])
+            if f:
+                return r[0], r[1], f
+        return r
+
+    def one0(s):
         r = one1(s, None)
         if realtime_hang(r[0]):
             # the harness's real-time backstop fired (its hang detection proper is virtual): only a
